@@ -14,8 +14,10 @@ func ForeachLeaf(val rel.Value, path string, leafAction func(val rel.Value, path
 
 	switch v := val.(type) {
 	case rel.Array:
-		for i, item := range v.Values() {
-			ForeachLeaf(item, fmt.Sprintf("%s(%d)", path, i), leafAction)
+		// enumerate the items (holes are skipped) under their real index (offset included)
+		for e := v.Enumerator(); e.MoveNext(); {
+			item := e.Current().(rel.Tuple)
+			ForeachLeaf(item.MustGet(rel.ArrayItemAttr), fmt.Sprintf("%s(%s)", path, item.MustGet("@").String()), leafAction)
 		}
 	case rel.Dict:
 		for _, entry := range v.OrderedEntries() {
